@@ -31,6 +31,10 @@ structure St where
   files : List Str
   /-- `DependencyGraph`: (child, parent) -/
   deps : List (Key × Key)
+  /-- services their host still resolves (`Host::m_Services`, read by `Service::GetByNamePair`): entered by
+      `Service::OnAllConfigLoaded` (service.cpp:54-57) — and NEVER removed, `Host::RemoveService` has no
+      caller (F-C17f) -/
+  hostServices : List Key
 deriving DecidableEq, Repr, Inhabited
 
 def St.find (st : St) (k : Key) : Option Obj := st.objs.find? (fun o => o.key = k)
@@ -66,10 +70,23 @@ deriving DecidableEq, Repr
 
 def rmFile (p : Str) (fs : List Str) : List Str := fs.filter (· ≠ p)
 
+def tyService : Str := ['S', 'e', 'r', 'v', 'i', 'c', 'e']
+
 /-- `CreateObject(type, fullName, config, …)`.  `path` = `ComputeNewObjectConfigPath` (oracle),
     `parents` = what the new object turns out to depend on (oracle), `api` = whether its package is
-    `_api` (the default of `CompileFile(path, String(), "_api")` unless the supplied attributes set `package`). -/
-def createObject (st : St) (k : Key) (path : Str) (parents : List Key) (fault : Fault) (api : Bool := true) : St × Res :=
+    `_api` (the default of `CompileFile(path, String(), "_api")` unless the supplied attributes set `package`),
+    `generated` = the children that apply rules generate for the new object (oracle; committed by the
+    recursive `CommitNewItems`, configitem.cpp:587-589, and rolled back with it: 595-611). -/
+def nodupK : List Key → Bool
+  | [] => true
+  | k :: r => !(r.contains k) && nodupK r
+
+/-- the apply-generated children can be committed: new, distinct names -/
+def genOk (st : St) (k : Key) (generated : List Key) : Bool :=
+  generated.all (fun g => !st.has g && g != k) && nodupK generated
+
+def createObject (st : St) (k : Key) (path : Str) (parents : List Key) (fault : Fault) (api : Bool := true)
+    (generated : List Key := []) : St × Res :=
   -- 184-191: "Object already exists"
   if st.has k then (st, .fail)
   else if fault = .pathBroken then (st, .fail)
@@ -83,7 +100,7 @@ def createObject (st : St) (k : Key) (path : Str) (parents : List Key) (fault : 
     else
       -- Evaluate: the ObjectExpression registers the item
       let st2 := { st1 with items := k :: st1.items }
-      if fault = .commitFails then (dropFile { st2 with items := st2.items.filter (· ≠ k) }, .fail)
+      if fault = .commitFails || !genOk st k generated then (dropFile { st2 with items := st2.items.filter (· ≠ k) }, .fail)
       else if fault = .nameMismatch then (dropFile { st2 with items := st2.items.filter (· ≠ k) }, .fail)
       else if fault = .ignored then (dropFile { st2 with items := st2.items.filter (· ≠ k) }, .ok)
       else
@@ -92,8 +109,12 @@ def createObject (st : St) (k : Key) (path : Str) (parents : List Key) (fault : 
         if fault = .activateThrows then (dropFile st3, .fail)
         else
           -- activate; the object is found; the deferred removal is cancelled (277-279)
-          ({ st3 with objs := { key := k, api := api, active := true, file := path } :: st2.objs,
-                      deps := parents.map (fun p => (k, p)) ++ st3.deps }, .ok)
+          -- the generated children are committed and activated with it (they belong to the rule's package)
+          ({ st3 with objs := { key := k, api := api, active := true, file := path } ::
+                        (generated.map (fun g => { key := g, api := false, active := true, file := [] }) ++ st2.objs),
+                      items := k :: (generated ++ st1.items),
+                      deps := parents.map (fun p => (k, p)) ++ (generated.map (fun g => (g, k)) ++ st3.deps),
+                      hostServices := (k :: generated).filter (fun x => x.ty = tyService) ++ st3.hostServices }, .ok)
 
 /-- `DependencyGraph::GetChildren(object)` restricted to live objects. -/
 def children (st : St) (k : Key) : List Key :=
@@ -105,7 +126,12 @@ def removeObj (st : St) (o : Obj) : St :=
   { objs := st.objs.filter (fun x => x.key ≠ o.key),
     items := st.items.filter (· ≠ o.key),
     files := if o.api then rmFile o.file st.files else st.files,
-    deps := st.deps.filter (fun e => e.1 ≠ o.key ∧ e.2 ≠ o.key) }
+    deps := st.deps.filter (fun e => e.1 ≠ o.key ∧ e.2 ≠ o.key),
+    -- no `RemoveService`: the deleted service stays resolvable through its host
+    hostServices := st.hostServices }
+
+/-- `Service::GetByNamePair`: what a new Comment/Downtime/Notification/Dependency for that service finds. -/
+def St.resolvesService (st : St) (k : Key) : Bool := st.hostServices.contains k
 
 /-- one child of the loop at 323-325: the helper's result is ignored; a child that an earlier
     sibling's cascade already removed is a no-op. -/
@@ -124,22 +150,38 @@ def deleteHelper : Nat → St → Obj → Bool → St × Bool
       let st1 := ch.foldl (deleteChild (fun s co => (deleteHelper f s co cascade).1)) st
       (removeObj st1 o, true)
 
-/-- `DeleteObject` (377-388) for an existing object. -/
+/-- transitive dependents of `acc` -/
+def dependentsClosure : Nat → St → List Key → List Key
+  | 0, _, acc => acc
+  | f + 1, st, acc =>
+    let more := ((acc.flatMap (children st)).filter (fun c => !acc.contains c)).eraseDups
+    if more.isEmpty then acc else dependentsClosure f st (acc ++ more)
+
+/-- some object that a cascading delete of `k` visits depends (transitively) on itself: the recursion
+    of `DeleteObjectHelper` (323-325 visits the dependents BEFORE the object is deactivated and
+    unregistered) then never ends — the process dies of stack exhaustion (F-C17g; e.g. a TimePeriod
+    whose `includes` names itself) -/
+def cascadeCycle (st : St) (k : Key) : Bool :=
+  (dependentsClosure st.objs.length st [k]).any
+    (fun x => (dependentsClosure st.objs.length st (children st x)).contains x)
+
+/-- `DeleteObject` (377-388) for an existing object.  `.threw` also stands for "does not return". -/
 def deleteObject (st : St) (k : Key) (cascade : Bool) : St × Res :=
   match st.find k with
   | none => (st, .fail)
   | some o =>
     if !o.api then (st, .fail)
+    else if cascade && cascadeCycle st k then (st, .threw)
     else
       let r := deleteHelper st.objs.length st o cascade
       (r.1, if r.2 then .ok else .fail)
 
 inductive Op where
-  | create (k : Key) (path : Str) (parents : List Key) (fault : Fault)
+  | create (k : Key) (path : Str) (parents : List Key) (fault : Fault) (api : Bool) (generated : List Key)
   | delete (k : Key) (cascade : Bool)
 
 def step (st : St) : Op → St
-  | .create k p ps f => (createObject st k p ps f).1
+  | .create k p ps f a g => (createObject st k p ps f a g).1
   | .delete k c => (deleteObject st k c).1
 
 def run (st : St) (ops : List Op) : St := ops.foldl step st
